@@ -233,6 +233,27 @@ def r_txn(E):
                     f"ModelingUpdate.{handler_used} (the exception handler's restore) never looks at self.{nm}: values "
                     f"replaced through that list stay in the model after a failed update", rel, fn.lineno,
                     f"ModelingUpdate.{handler_used}", {"clauses": ["sim", "recompute", "val"]}))
+        # the restore undoes only the replacements that happened: a pair is put back when its new value is attached
+        # *and* its previous value is detached. Testing the new value alone also "restores" a pair that was never applied
+        # because the new value was refused for being attached to another object — through that object's attribute
+        res.instances += 1
+        from ..astutil import path_conditions as _pc, fully_expanded as _fxp
+        rep = next((c for c in _calls(fn) if isinstance(c.func, ast.Attribute)
+                    and c.func.attr == "replace_in_mod_obj_container_without_recomputation"), None)
+        if rep is not None and rep.args:
+            new_v, prev_v = norm(rep.func.value), norm(rep.args[0])
+            stmt = rep
+            while stmt is not None and not isinstance(stmt, ast.stmt):
+                stmt = getattr(stmt, "_parent", None)
+            conds = " and ".join(norm(_fxp(t, fn)) for t, pol in _pc(stmt, fn)) if stmt is not None else ""
+            if f"{prev_v}.modeling_obj_container" not in conds:
+                res.findings.append(Finding(
+                    "R-TXN", f"ModelingUpdate.{handler_used} :: restores pairs that were never applied",
+                    f"ModelingUpdate.{handler_used} puts `{prev_v}` back wherever `{new_v}` is attached"
+                    f"{' (`' + conds[:60] + '`)' if conds else ''}, without checking that `{prev_v}` was detached: when the "
+                    f"update failed because the new value belongs to another object, that object's attribute receives the "
+                    f"previous value of the edited one (`b.x = a.x` refused, and afterwards a.x holds b's old value)", rel,
+                    rep.lineno, f"ModelingUpdate.{handler_used}", {"clauses": ["val", "recompute", "sim"]}))
         # partial progress of the raising loop must be visible: recompute_attributes publishes its list before the loop
         rec = T.methods.get("recompute_attributes")
         res.instances += 1
@@ -265,7 +286,7 @@ def r_txn(E):
     res.breakdown = {"mutating_methods": sorted(m for m in T.methods if T.is_mut(m)),
                      "raising_methods": sorted(m for m in T.methods if T.may_raise(m)),
                      "restore_method": handler_used}
-    res.floor = 8
+    res.floor = 9
     return res
 
 
